@@ -245,7 +245,10 @@ pub struct WriteOutcome {
 /// Writes the entries with the real grenad writer into a Vec<u8>; panics are data.
 pub fn write_file(cfg: &Cfg, entries: &[Entry]) -> WriteOutcome {
     // the instrumented sink follows the write schedule of the scenario (whole buffers by default)
-    let mut w = cfg.builder().build(crate::io::Sink::new());
+    // upper bound on the stream: every key can be repeated once per index level that really fills
+    // (at most a handful), plus framing; 6x the payload + 4 MiB is far above any correct file
+    let payload: usize = entries.iter().map(|(k, v)| k.len() + v.len() + 32).sum();
+    let mut w = cfg.builder().build(crate::io::Sink::with_limit(payload.saturating_mul(6).saturating_add(4 << 20)));
     let mut detail = String::new();
     let r = std::panic::catch_unwind(std::panic::AssertUnwindSafe(|| {
         for (k, v) in entries {
